@@ -58,7 +58,12 @@ InvHolds(n, s) ==
                                    /\ c.o => (c.rs = c.sh /\ c.gs = c.sw)
                                    /\ (~c.o /\ ~c.sp) => (c.gs = 1 /\ c.rs = 1 /\ ~c.hm /\ ~c.vm)
     [] n = "EveryCellHasParagraph" -> \A rc \in Cells(s) : Len(At(s, rc).txt) >= 1
-InvFailing(s) == {InvNames[i] : i \in {j \in DOMAIN InvNames : ~InvHolds(InvNames[j], s)}}
+\* The verdict is TOTAL: a state that is not rectangular, or whose readers report a region reaching outside the table, is named by
+\* that clause alone - the other clauses index cells through the regions and are not evaluated on it.
+WellFormed(s) == InvHolds("Rectangular", s) /\ InvHolds("RegionsInside", s)
+InvFailing(s) == IF ~InvHolds("Rectangular", s) THEN {"Rectangular"}
+                 ELSE IF ~InvHolds("RegionsInside", s) THEN {"RegionsInside"}
+                 ELSE {InvNames[i] : i \in {j \in DOMAIN InvNames : ~InvHolds(InvNames[j], s)}}
 Inv(s) == InvFailing(s) = {}
 
 \* actions are records:
@@ -108,7 +113,9 @@ PostHolds(n, s, a, out, t) ==
                                                         /\ t.rows = s.rows /\ t.colw = s.colw /\ t.fw = s.fw
                                     [] a.op = "frame" -> t.fw = a.w /\ t.fh = a.h /\ t.rows = s.rows /\ t.colw = s.colw /\ t.rowh = s.rowh
                                     [] OTHER -> TRUE
-PostFailing(s, a, out, t) == {PostNames[i] : i \in {j \in DOMAIN PostNames : ~PostHolds(PostNames[j], s, a, out, t)}}
+\* (a malformed state BEFORE the step was already rejected where it arose; a malformed state AFTER it is rejected by InvFailing)
+PostFailing(s, a, out, t) == IF ~WellFormed(s) \/ ~WellFormed(t) THEN {}
+                             ELSE {PostNames[i] : i \in {j \in DOMAIN PostNames : ~PostHolds(PostNames[j], s, a, out, t)}}
 Post(s, a, out, t) == PostFailing(s, a, out, t) = {}
 
 \* creation: add_table(r, c, w, h)
